@@ -83,3 +83,14 @@ Theorem C10_timestampsdirect_no_panic c crit t0 off ops :
 Proof. exact (timestampsdirect_no_panic c crit t0 off ops). Qed.
 Check C10_timestampsdirect_no_panic.
 Print Assumptions C10_timestampsdirect_no_panic.
+
+Require Import FL.Flw.NumDCleanupStep FL.Flw.NumDCleanupRun FL.Flw.NumDCleanup.
+(* NumbersDirect naming with a cleanup strategy *)
+Theorem C10_numbersdirect_cleanup_no_panic c crit k t0 off ops :
+  numdkcfg c crit k -> Forall basic_op ops ->
+  dside c k (nclosed (a_run None ops (snd (run (fst (step (sys0 t0 off) (OStart c))) ops)))) ->
+  Forall obs_ok (snd (run (sys0 t0 off) (OStart c :: ops ++ [OStop]))).
+Proof. exact (numbersdirect_cleanup_no_panic c crit k t0 off ops). Qed.
+Check C10_numbersdirect_cleanup_no_panic.
+Print Assumptions C10_numbersdirect_cleanup_no_panic.
+
